@@ -135,8 +135,10 @@ def locator_item(entries, locator_type=VHDX_LOCATOR_TYPE, order=None):
 def build(states, slots, block_size=MB, sector=512, size=None, layer=1, seqs=(7, 6), regions=("meta", "bat"),
           meta_mb=2, bat_mb=3, base_mb=None, bitmaps=None, parent=None, disk_id=b"\x11" * 16, nslots=None, label="vhdx",
           total_blocks=None, window_at=0, sb_slot_mb=None, name=None, leave_allocated=False, stale_offsets=False,
-          extra_items=None, locator_at=None, locator_order=None):
-    """locator_at: position of the parent locator in the metadata table and in the item area (default: last); the item is then
+          extra_items=None, locator_at=None, locator_order=None, meta_len_mb=1, items_at=None):
+    """meta_len_mb / items_at: length of the metadata region in MiB and the offset of the item area inside it (default 64 KiB;
+    items may lie anywhere in the region behind the table).
+    locator_at: position of the parent locator in the metadata table and in the item area (default: last); the item is then
     padded inside its own length to a multiple of 8, so that the next item is stored directly behind it.
     extra_items: [(where, guid16, data, flags)] further metadata items, where = 'first' | 'last'; flags bit 0 IsUser, bit 1
     IsVirtualDisk, bit 2 IsRequired.  An item is identified by (ItemId, IsUser); items a reader does not know are ignored
@@ -168,7 +170,8 @@ def build(states, slots, block_size=MB, sector=512, size=None, layer=1, seqs=(7,
     img.put(0, b"vhdxfile" + "verif".encode("utf-16-le") + b"\0\0" + "stale creator".encode("utf-16-le") + b"\x3d\xd8" * 5)
     img.put(KB64, header(seqs[0]))
     img.put(2 * KB64, header(seqs[1]))
-    ents = {"meta": struct.pack("<16sQII", META_GUID, meta_mb * MB, MB, 1),
+    items_at = KB64 if items_at is None else items_at
+    ents = {"meta": struct.pack("<16sQII", META_GUID, meta_mb * MB, meta_len_mb * MB, 1),
             "bat": struct.pack("<16sQII", BAT_GUID, bat_mb * MB, bat_len, 1)}
     rt = struct.pack("<4sII4s", b"regi", 0, len(regions), b"") + b"".join(ents[r] for r in regions)
     rt = _with_crc(rt, KB64)
@@ -194,11 +197,11 @@ def build(states, slots, block_size=MB, sector=512, size=None, layer=1, seqs=(7,
     body = b""
     item_offsets = []
     for guid, data, flags in items:
-        item_offsets.append(meta_mb * MB + KB64 + len(body))
-        mt += struct.pack("<16sIII", guid, KB64 + len(body), len(data), flags) + b"\0" * 4
+        item_offsets.append(meta_mb * MB + items_at + len(body))
+        mt += struct.pack("<16sIII", guid, items_at + len(body), len(data), flags) + b"\0" * 4
         body += data + b"\0" * ((-len(data)) % 8)
     img.put(meta_mb * MB, mt)
-    img.put(meta_mb * MB + KB64, body)
+    img.put(meta_mb * MB + items_at, body)
     # BAT
     bat = {}
     used = {}
